@@ -79,7 +79,7 @@ if TYPE_CHECKING:
     from .file import _GitFile
 
 from .errors import PackedRefsException, RefFormatError
-from .file import GitFile, ensure_dir_exists
+from .file import FileLocked, GitFile, ensure_dir_exists
 from .objects import ZERO_SHA, ObjectID, git_line, valid_hexsha
 
 Ref = NewType("Ref", bytes)
@@ -1051,11 +1051,30 @@ class DiskRefsContainer(RefsContainer):
         """
         if not new_refs:
             return
+        self._add_packed_refs(lambda: new_refs, prune_if_unchanged=False)
 
+    def _add_packed_refs(
+        self,
+        get_new_refs: Callable[[], Mapping[Ref, ObjectID | None]],
+        prune_if_unchanged: bool,
+    ) -> None:
+        """Add refs to packed-refs, determining them while holding its lock.
+
+        Args:
+          get_new_refs: Called once the packed-refs lock is held; returns a
+            mapping of ref names to targets as for add_packed_refs()
+          prune_if_unchanged: If True, only remove a loose ref if it still
+            has the value that was packed; if False remove it regardless
+        """
         path = os.path.join(self.path, b"packed-refs")
 
         try:
             with GitFile(path, "wb") as f:
+                new_refs = get_new_refs()
+                if not new_refs:
+                    f.abort()
+                    return
+
                 # reread cached refs from disk, while holding the lock
                 packed_refs = self.get_packed_refs().copy()
 
@@ -1080,11 +1099,44 @@ class DiskRefsContainer(RefsContainer):
         # Only now that the new packed-refs file is in place, remove the
         # loose refs it supersedes. Doing this earlier would make the refs
         # disappear for concurrent readers (and for good, if we crash).
-        for ref in new_refs:
-            # please note that this bypasses remove_if_equals as we
-            # don't want to affect packed refs in here
-            with suppress(OSError):
-                os.remove(self.refpath(ref))
+        for ref, target in new_refs.items():
+            if prune_if_unchanged:
+                self._prune_loose_ref(ref, target)
+            else:
+                # please note that this bypasses remove_if_equals as we
+                # don't want to affect packed refs in here
+                with suppress(OSError):
+                    os.remove(self.refpath(ref))
+
+    def _prune_loose_ref(self, name: Ref, packed_value: ObjectID | None) -> None:
+        """Remove a loose ref that has just been packed.
+
+        The loose file is removed while holding the lock on the ref, and only
+        if it still has the value that was packed: a concurrent update that
+        landed in the meantime must not be lost. This bypasses
+        remove_if_equals as packed refs must not be affected.
+
+        Args:
+          name: Name of the ref
+          packed_value: Value that was written to packed-refs, or None if the
+            ref was dropped from packed-refs (the loose ref is then removed
+            unconditionally)
+        """
+        filename = self.refpath(name)
+        if not os.path.lexists(filename):
+            return
+        try:
+            f = GitFile(filename, "wb")
+        except (OSError, FileLocked):
+            # No such directory (so no loose ref), or somebody is updating
+            # the ref right now. A loose ref left behind is harmless.
+            return
+        try:
+            if packed_value is None or self.read_loose_ref(name) == packed_value:
+                with suppress(OSError):
+                    os.remove(filename)
+        finally:
+            f.abort()
 
     def get_peeled(self, name: Ref) -> ObjectID | None:
         """Return the cached peeled value of a ref, if available.
@@ -1448,22 +1500,32 @@ class DiskRefsContainer(RefsContainer):
         Args:
             all: If True, pack all refs. If False, only pack tags.
         """
-        refs_to_pack: dict[Ref, ObjectID | None] = {}
-        for ref in self.allkeys():
-            if ref == HEADREF:
-                # Never pack HEAD
-                continue
-            if all or ref.startswith(LOCAL_TAG_PREFIX):
-                try:
-                    sha = self[ref]
-                    if sha:
-                        refs_to_pack[ref] = sha
-                except KeyError:
-                    # Broken ref, skip it
-                    pass
 
-        if refs_to_pack:
-            self.add_packed_refs(refs_to_pack)
+        def collect() -> dict[Ref, ObjectID | None]:
+            refs_to_pack: dict[Ref, ObjectID | None] = {}
+            for ref in self.allkeys():
+                if ref == HEADREF:
+                    # Never pack HEAD
+                    continue
+                if all or ref.startswith(LOCAL_TAG_PREFIX):
+                    if os.path.lexists(self.refpath(ref) + b".lock"):
+                        # Somebody is updating or deleting this ref right
+                        # now; packing it could undo that. Leave it alone.
+                        continue
+                    try:
+                        sha = self[ref]
+                        if sha:
+                            refs_to_pack[ref] = sha
+                    except KeyError:
+                        # Broken ref, skip it
+                        pass
+            return refs_to_pack
+
+        # Read the values to pack while holding the packed-refs lock: a ref
+        # that is updated, deleted or repacked by another process after we
+        # read it but before we write packed-refs would otherwise be reset
+        # to the value seen here.
+        self._add_packed_refs(collect, prune_if_unchanged=True)
 
 
 def _split_ref_line(line: bytes) -> tuple[ObjectID, Ref]:
